@@ -20,7 +20,13 @@ Inductive op := OCreate | OMark (p : Z) | OCallback | OCreateFailing (late built
 | OParent (what : Z)
 (** the handle that owns the gameplay side of the storage is dropped while the storage lives on: no step
     either; the count and the capacity can no longer be asked for *)
-| OAbandon.
+| OAbandon
+(** resource [p] is given something to do through its handle ([what]: a tween that takes a minute, one that
+    starts in a minute, one that waits for a clock time that never comes, a short one; a tweener's [set], an
+    LFO's / clock's / listener's / track's parameter, a track's fade-out): the storage never looks at what a
+    resource is doing — the removal test of [remove_and_add] is the handle's flag ([G_mark]) alone — so:
+    no step, no observable *)
+| OBusy (p what : Z).
 
 Inductive case :=
 | CHist (selfref prebuild : bool) (cap : Z) (mask : Z) (ops : list op)
@@ -114,6 +120,7 @@ Fixpoint run_ops (cf : cfg) (mask : Z) (ops : list op) (s : state) : list Z :=
       | Hang => [3%Z]
       end
   | OParent _ :: rest => run_ops cf mask rest s
+  | OBusy _ _ :: rest => run_ops cf mask rest s
   | OAbandon :: rest =>
       run_ops cf (Z.land mask (Z.lnot (Z.lor M_LEN M_CAP))) rest s
   | OCallback :: rest =>
